@@ -208,7 +208,14 @@ pub fn gen_rules<R: Rng>(rng: &mut R, r: &PortableRegistry, ctx: &mut Ctx) -> Ve
     if srcs.is_empty() {
         return vec![];
     }
-    let names = ["A", "B", "C"];
+    // parameter names of the rule: ordinary ones, or the very identifiers the generator gives to the
+    // parameters of generated items (`_0, _1, ..`, as when a rule is copied from generated code), in
+    // and out of order - so that an argument (`_1`) can equal the NAME of another source parameter
+    let schemes: [[&str; 3]; 5] = [["A", "B", "C"], ["T", "U", "V"], ["_0", "_1", "_2"], ["_1", "_0", "_2"], ["_2", "_0", "_1"]];
+    let names = schemes[rng.gen_range(0..schemes.len())];
+    if names[0].starts_with('_') {
+        ctx.count("rule_sets_with_generated_style_param_names", 1);
+    }
     let mut used = BTreeSet::new();
     let mut rules = Vec::new();
     for i in 0..rng.gen_range(1..=4) {
